@@ -520,6 +520,11 @@ func (fs *readOnlyFsInternal) insertDirEntry(
 		fs.readDirMap[parentInode] = childEntries
 	}
 
+	// a directory can be listed even when nothing is ever added to it (the root of a bundle without files)
+	if _, known := fs.readDirMap[dirFsEntry.iNode]; !known {
+		fs.readDirMap[dirFsEntry.iNode] = nil
+	}
+
 	return nil
 }
 
